@@ -1299,6 +1299,41 @@ impl PeerConnection {
     pub fn set_local_description(&self, desc: SessionDescription) -> RtcResult<()> {
         self.inner.validate_sdp_type(&desc.sdp_type)?;
 
+        // Check (and advance) the signaling state first: a call rejected for its state must
+        // not have touched the transceivers.
+        {
+            let state = &self.inner.signaling_state;
+            match desc.sdp_type {
+                SdpType::Offer => {
+                    if *state.borrow() != SignalingState::Stable {
+                        return Err(RtcError::InvalidState(
+                            "set_local_description(offer) requires stable signaling state".into(),
+                        ));
+                    }
+                    let _ = state.send(SignalingState::HaveLocalOffer);
+                }
+                SdpType::Answer => {
+                    if *state.borrow() != SignalingState::HaveRemoteOffer {
+                        return Err(RtcError::InvalidState(
+                            "set_local_description(answer) requires remote offer".into(),
+                        ));
+                    }
+                    let _ = state.send(SignalingState::Stable);
+                }
+                SdpType::Pranswer => {
+                    if *state.borrow() != SignalingState::HaveRemoteOffer {
+                        return Err(RtcError::InvalidState(
+                            "set_local_description(pranswer) requires remote offer".into(),
+                        ));
+                    }
+                    // Stay in HaveRemoteOffer.
+                }
+                SdpType::Rollback => {
+                    return Err(RtcError::NotImplemented("rollback"));
+                }
+            }
+        }
+
         // For Offerer: extract parameters from local offer (our intended changes)
         // This allows Offerer to immediately update transceivers with new parameters
         // that will be confirmed when answer is received
@@ -1358,38 +1393,6 @@ impl PeerConnection {
             }
         }
 
-        {
-            let state = &self.inner.signaling_state;
-            match desc.sdp_type {
-                SdpType::Offer => {
-                    if *state.borrow() != SignalingState::Stable {
-                        return Err(RtcError::InvalidState(
-                            "set_local_description(offer) requires stable signaling state".into(),
-                        ));
-                    }
-                    let _ = state.send(SignalingState::HaveLocalOffer);
-                }
-                SdpType::Answer => {
-                    if *state.borrow() != SignalingState::HaveRemoteOffer {
-                        return Err(RtcError::InvalidState(
-                            "set_local_description(answer) requires remote offer".into(),
-                        ));
-                    }
-                    let _ = state.send(SignalingState::Stable);
-                }
-                SdpType::Pranswer => {
-                    if *state.borrow() != SignalingState::HaveRemoteOffer {
-                        return Err(RtcError::InvalidState(
-                            "set_local_description(pranswer) requires remote offer".into(),
-                        ));
-                    }
-                    // Stay in HaveRemoteOffer.
-                }
-                SdpType::Rollback => {
-                    return Err(RtcError::NotImplemented("rollback"));
-                }
-            }
-        }
         let mut local = self.inner.local_description.lock();
         *local = Some(desc);
         Ok(())
